@@ -250,3 +250,53 @@ void h_Less(void) {
   CANARY();
 }
 #endif
+
+#ifdef UNIT_FindMember
+/* ---- DNode::findMemberImpl(const char*, size_t), static dispatch, no lookup map: the linear scan against InlinedMemcmpEq's contract ----
+ * The member array is abstracted to name views; InlinedMemcmpEq is its contract: an uninterpreted "bytes equal" answer per member,
+ * consulted only on exactly `len` readable bytes of the member's name and of the key. */
+#define SONIC_STATIC_DISPATCH 1
+#ifndef StringView_DEFINED
+typedef struct { const char *data_; size_t size_; } StringView2;
+#endif
+#define StringView StringView2
+typedef struct { StringView name_sv; } MemberStub;
+typedef MemberStub *MemberIterator;
+#define FM_MAX 4
+typedef struct { MemberStub m[FM_MAX]; size_t n; } DNodeStub;
+static inline MemberIterator DN_MemberBegin(const DNodeStub *s) { return (MemberIterator)s->m; }
+static inline MemberIterator DN_MemberEnd(const DNodeStub *s) { return (MemberIterator)s->m + s->n; }
+static inline void *DN_getMap(const DNodeStub *s) { (void)s; return NULL; }           /* no lookup map built */
+static inline MemberIterator DN_findFromMap(const DNodeStub *s, const char *k, size_t l) { (void)k; (void)l; __CPROVER_assert(0, "C14.find.nomap: not reached without a lookup map"); return DN_MemberEnd(s); }
+_Bool fm_eq[FM_MAX]; const char *fm_names[FM_MAX]; const char *fm_key; size_t fm_len;
+static inline bool fm_memcmpeq(const void *a, const void *b, size_t n) {
+  __CPROVER_assert(__CPROVER_r_ok(a, n) && __CPROVER_r_ok(b, n), "C14.find.extent: name and key are compared on exactly len readable bytes of each");
+  __CPROVER_assert(b == (const void *)fm_key && n == fm_len, "C14.find.args: the key and its length are what is passed to the byte comparison");
+  for (int i = 0; i < FM_MAX; i++) if (a == (const void *)fm_names[i]) return fm_eq[i];
+  __CPROVER_assert(0, "C14.find.name: the first operand is a member's name");
+  return 0;
+}
+#define InlinedMemcmpEq fm_memcmpeq
+#include "gen/DNode.findMemberImpl.inc"
+#undef InlinedMemcmpEq
+size_t in_fn;
+void h_findMember(void) {
+  DNodeStub N; __CPROVER_assume(N.n <= FM_MAX); in_fn = N.n;
+  size_t len; __CPROVER_assume(len <= 64);
+  char *key = malloc(len); __CPROVER_assume(key != NULL);
+  fm_key = key; fm_len = len;
+  for (int i = 0; i < FM_MAX; i++) {
+    size_t sz; __CPROVER_assume(sz <= 64);
+    char *nm = malloc(sz); __CPROVER_assume(nm != NULL && nm != key);
+    N.m[i].name_sv.data_ = nm; N.m[i].name_sv.size_ = sz; fm_names[i] = nm;
+    _Bool eq; fm_eq[i] = eq;
+  }
+  MemberIterator r = DNode_findMemberImpl(&N, key, len);
+  /* spec: the first member whose name has the same length and the same bytes; MemberEnd() if there is none */
+  size_t want = N.n;
+  for (int i = FM_MAX - 1; i >= 0; i--) if ((size_t)i < N.n && N.m[i].name_sv.size_ == len && fm_eq[i]) want = (size_t)i;
+  VASSERT(r == N.m + want, "C14.find.first: lookup returns the first member whose name has the same length and the same bytes, MemberEnd() otherwise");
+  CANARY();
+}
+#undef StringView
+#endif
